@@ -592,6 +592,180 @@ func failThenValid(s *cases.Set, r *cq.RNG, i int) {
 
 var joinTypes = []lorawan.JoinType{lorawan.JoinRequestType, lorawan.RejoinRequestType0, lorawan.RejoinRequestType1, lorawan.RejoinRequestType2}
 
+// ---- octets as received ----
+func wireUp(b []byte, k lorawan.AES128Key) (s string) {
+	cases.Begin("UnmarshalBinary + ValidateUplinkJoinMIC:"+hx(b), nil)
+	defer cases.End()
+	defer func() {
+		if e := recover(); e != nil {
+			s = cq.Panic
+		}
+	}()
+	var q lorawan.PHYPayload
+	if err := q.UnmarshalBinary(append([]byte{}, b...)); err != nil {
+		return cq.Err
+	}
+	return obool(q.ValidateUplinkJoinMIC(k))
+}
+
+func wireUpCase(s *cases.Set, b []byte, k lorawan.AES128Key, kind, what string) {
+	step()
+	o := wireUp(b, k)
+	ks := fmt.Sprintf("%s:key=%s:bytes=%s", what, hx(k[:]), hx(b))
+	rp := map[string]interface{}{"api": "UnmarshalBinary, ValidateUplinkJoinMIC", "what": what, "key": hx(k[:]), "bytes": hx(b), "observed": o}
+	s.Add(cases.Case{Term: fmt.Sprintf("CWireUp %s %s %s", cq.Bytes(k[:]), cq.Bytes(b), o), Key: ks, Kind: kind, Nontrivial: true, Replay: rp})
+	bb := append([]byte{}, b...)
+	s.Remember(ks, o, rp, func() string { return wireUp(bb, k) })
+}
+
+func wireAccept(b []byte, ty lorawan.JoinType, je lorawan.EUI64, dn lorawan.DevNonce, k, ek lorawan.AES128Key) (odec, oval string) {
+	cases.Begin("UnmarshalBinary + DecryptJoinAcceptPayload + ValidateDownlinkJoinMIC:"+hx(b), nil)
+	defer cases.End()
+	odec, oval = cq.Err, cq.Err
+	defer func() {
+		if e := recover(); e != nil {
+			if odec == cq.Err {
+				odec = cq.Panic
+			} else {
+				oval = cq.Panic
+			}
+		}
+	}()
+	var q lorawan.PHYPayload
+	if err := q.UnmarshalBinary(append([]byte{}, b...)); err != nil {
+		return
+	}
+	if err := q.DecryptJoinAcceptPayload(ek); err != nil {
+		return
+	}
+	odec = cq.Ok(framefmt.Phy(q, 0))
+	oval = obool(q.ValidateDownlinkJoinMIC(ty, je, dn, k))
+	return
+}
+
+func wireAcceptCase(s *cases.Set, b []byte, ty lorawan.JoinType, je lorawan.EUI64, dn lorawan.DevNonce, k, ek lorawan.AES128Key, kind, what string) {
+	step()
+	odec, oval := wireAccept(b, ty, je, dn, k, ek)
+	ks := fmt.Sprintf("%s:type=%d:joineui=%s:devnonce=%d:key=%s:enckey=%s:bytes=%s", what, byte(ty), hx(je[:]), uint16(dn), hx(k[:]), hx(ek[:]), hx(b))
+	rp := map[string]interface{}{"api": "UnmarshalBinary, DecryptJoinAcceptPayload(enckey), ValidateDownlinkJoinMIC(joinReqType, joinEUI, devNonce, key)", "what": what,
+		"joinReqType": byte(ty), "joinEUI": hx(je[:]), "devNonce": uint16(dn), "key": hx(k[:]), "enckey": hx(ek[:]), "bytes": hx(b), "observed": map[string]string{"decrypted": odec, "validate": oval}}
+	s.Add(cases.Case{Term: fmt.Sprintf("CWireAccept %d %s %d %s %s %s %s %s", byte(ty), cq.Bytes(je[:]), uint16(dn), cq.Bytes(k[:]), cq.Bytes(ek[:]), cq.Bytes(b), odec, oval),
+		Key: ks, Kind: kind, Nontrivial: true, Replay: rp})
+	bb := append([]byte{}, b...)
+	s.Remember(ks, odec+" "+oval, rp, func() string { a, c := wireAccept(bb, ty, je, dn, k, ek); return a + " " + c })
+}
+
+// buildAccept: a join-accept as a specification-conformant network produces it (own CMAC + crypto/aes): MIC over the
+// MHDR octet and the payload octets exactly as given (1.1 prefix when the OptNeg bit is set), then aes128_decrypt in
+// ECB over payload | MIC.
+func buildAccept(mhdr byte, body []byte, ty lorawan.JoinType, je lorawan.EUI64, dn lorawan.DevNonce, k, ek lorawan.AES128Key) []byte {
+	var msg []byte
+	if body[10]&0x80 != 0 {
+		msg = append(msg, byte(ty))
+		for j := 7; j >= 0; j-- {
+			msg = append(msg, je[j])
+		}
+		msg = append(msg, byte(dn), byte(dn>>8))
+	}
+	msg = append(append(msg, mhdr), body...)
+	t := micforge.New(k).CMAC(msg)
+	pt := append(append([]byte{}, body...), t[:4]...)
+	blk, _ := aes.NewCipher(ek[:])
+	out := []byte{mhdr}
+	for i := 0; i+16 <= len(pt); i += 16 {
+		c := make([]byte, 16)
+		blk.Decrypt(c, pt[i:i+16])
+		out = append(out, c...)
+	}
+	return out
+}
+
+// wireCases: join frames as received. The specification MICs cover the octets as transmitted; the library recomputes
+// them from the decoded value, and the decoders drop RFU parts: MHDR bits 4..2 (known C04-2), bits 7..4 of the
+// RxDelay octet and octets 12..14 of a channel-mask CFList in a join-accept (known C04-3). These inputs are generated
+// under `wire:mhdr-rfu:` / `wire:join-accept-rfu:`; every other change must behave.
+func wireCases(s *cases.Set, r *cq.RNG, i int) {
+	k, ek := key(r), key(r)
+	// --- join-request / rejoin-request
+	up := joinFrame(r, []int{0, 2, 3, 4}[i%4])
+	if up.SetUplinkJoinMIC(k) == nil {
+		if b, err := up.MarshalBinary(); err == nil {
+			wireUpCase(s, b, k, "wire-up", "wire:as-sent")
+			bits := []byte{0x04, 0x08, 0x10, 0x1c}[i%4]
+			c := append([]byte{}, b...)
+			c[0] |= bits
+			wireUpCase(s, c, k, "wire-mhdr-rfu", fmt.Sprintf("wire:mhdr-rfu:bits=%02x:join-request:mic-of-the-frame-sent-with-rfu-zero", bits))
+			t := micforge.New(k).CMAC(c[:len(c)-4])
+			copy(c[len(c)-4:], t[:4])
+			wireUpCase(s, c, k, "wire-mhdr-rfu", fmt.Sprintf("wire:mhdr-rfu:bits=%02x:join-request:specification-mic-of-the-received-octets", bits))
+			c = append([]byte{}, b...)
+			pos := 8 + r.Intn((len(c)-1)*8)
+			if i%3 == 0 {
+				pos = []int{0, 1}[r.Intn(2)] // Major bits
+			}
+			if c[0]>>5 == 6 && pos/8 == 1 { // the RejoinType octet selects the layout: not a tamper position of interest
+				pos += 8
+			}
+			c[pos/8] ^= 1 << uint(pos%8)
+			wireUpCase(s, c, k, "wire-up-bitflip", fmt.Sprintf("wire:bitflip:byte=%d:bit=%d", pos/8, pos%8))
+			wireUpCase(s, b, key(r), "wire-up", "wire:other-key")
+		}
+	}
+	// --- join-accept
+	ty := joinTypes[i%4]
+	je, dn := eui(r), lorawan.DevNonce(r.Intn(65536))
+	body := r.Bytes(12)
+	body[11] &= 0x0f // RxDelay: bits 7..4 RFU
+	switch i % 3 {
+	case 1: // channel list (any CFListType other than 1)
+		cf := r.Bytes(16)
+		cf[15] = []byte{0, 0, 2, 0x7f}[r.Intn(4)]
+		body = append(body, cf...)
+	case 2: // channel masks, RFU octets zero
+		cf := r.Bytes(16)
+		cf[12], cf[13], cf[14], cf[15] = 0, 0, 0, 1
+		body = append(body, cf...)
+	}
+	mh := byte(0x20) | byte(r.Intn(4))
+	wireAcceptCase(s, buildAccept(mh, body, ty, je, dn, k, ek), ty, je, dn, k, ek, "wire-accept", "wire:as-sent")
+	wireAcceptCase(s, buildAccept(mh, body, ty, je, dn, k, ek), ty, je, dn+1, key(r), ek, "wire-accept", "wire:other-key-and-devnonce")
+	{ // a field changed after the MIC was made (re-encrypted): rejected
+		b2 := append([]byte{}, body...)
+		b2[6+r.Intn(4)] ^= 1 << uint(r.Intn(8))
+		good := buildAccept(mh, body, ty, je, dn, k, ek)
+		blk, _ := aes.NewCipher(ek[:])
+		pt := make([]byte, len(good)-1)
+		for j := 0; j+16 <= len(pt); j += 16 {
+			blk.Encrypt(pt[j:j+16], good[1+j:1+j+16])
+		}
+		copy(pt, b2)
+		out := []byte{mh}
+		for j := 0; j+16 <= len(pt); j += 16 {
+			c := make([]byte, 16)
+			blk.Decrypt(c, pt[j:j+16])
+			out = append(out, c...)
+		}
+		wireAcceptCase(s, out, ty, je, dn, k, ek, "wire-accept", "wire:devaddr-changed-after-mic")
+	}
+	bits := []byte{0x04, 0x08, 0x10, 0x1c}[i%4]
+	wireAcceptCase(s, buildAccept(mh|bits, body, ty, je, dn, k, ek), ty, je, dn, k, ek, "wire-mhdr-rfu", fmt.Sprintf("wire:mhdr-rfu:bits=%02x:join-accept:specification-mic-of-the-received-octets", bits))
+	{
+		c := buildAccept(mh, body, ty, je, dn, k, ek)
+		c[0] |= bits
+		wireAcceptCase(s, c, ty, je, dn, k, ek, "wire-mhdr-rfu", fmt.Sprintf("wire:mhdr-rfu:bits=%02x:join-accept:mic-of-the-frame-sent-with-rfu-zero", bits))
+	}
+	{ // RFU bits of the RxDelay octet set by the sender
+		b2 := append([]byte{}, body...)
+		b2[11] |= byte(1+r.Intn(15)) << 4
+		wireAcceptCase(s, buildAccept(mh, b2, ty, je, dn, k, ek), ty, je, dn, k, ek, "wire-join-accept-rfu", "wire:join-accept-rfu:rxdelay:specification-mic-of-the-received-octets")
+	}
+	if i%3 == 2 { // RFU octets 12..14 of a channel-mask CFList set by the sender
+		b2 := append([]byte{}, body...)
+		b2[12+12+r.Intn(3)] = byte(1 + r.Intn(255))
+		wireAcceptCase(s, buildAccept(mh, b2, ty, je, dn, k, ek), ty, je, dn, k, ek, "wire-join-accept-rfu", "wire:join-accept-rfu:cflist:specification-mic-of-the-received-octets")
+	}
+}
+
 // dataFrame / joinFrame: the framefmt generators with the MHDR Major field drawn from all four values (the library
 // accepts any; the MHDR octet enters every MIC)
 func dataFrame(r *cq.RNG, o framefmt.Opt) lorawan.PHYPayload {
@@ -612,7 +786,7 @@ func main() {
 	r := cq.NewRNG(seed)
 	nr = cq.NewRNG(seed ^ 0x9e3779b97f4a7c15)
 	s := cases.New("C04", dir, "LW.Corr.C04",
-		"RFC 4493 examples and the FIPS-197 C.1 decryption first; corpus: join-accept with channel-mask CFList [m0; 0] (C04-1). Join-request and rejoin-request types 0, 1, 2 (palindromic EUIs in 25%), carried MIC valid / random / bit-flipped; join-accept frames with OptNeg both ways, CFList absent / 5 channels / 1..6 masks, JoinNonce 0 and 2^24-1 boundaries, all four JoinReqType values cycled, palindromic and non-palindromic JoinEUI, DevNonce boundaries; EncryptJoinAcceptPayload (device-side aes.Encrypt check in Go and in Coq), Decrypt with the same and with another key, malformed inputs (wrong payload types, lengths not 16/32, JoinNonce >= 2^24). Special MIC values: rejoin-requests type 0/2 CONSTRUCTED (internal/micforge: the single padded CMAC block solved from the tag, ~2^21 trials for pad byte, MHDR and RejoinType) so that their correct MIC is 00000000, ffffffff, 00000001 or the MIC of the previous case; join-accepts carrying these four MIC values through Encrypt / Decrypt (round trip) and Set/Validate. MHDR Major drawn from 0..3 in every generated frame. Related formulas: join frames carrying a MIC that is correct under a related formula (own CMAC: 1.0 form and 1.1 form whatever OptNeg says, other key, other JoinReqType, JoinEUI reversed, DevNonce + 1 / byte-swapped, without MHDR, MHDR first; for requests: prefixed, without MHDR, MHDR twice, other key) - and the right MIC validated under a different key that agrees with the right key under CRC-32 x3 / Adler-32 / xor-folds / shared prefix or suffix (internal/collide), then under the right key again - the model decides each verdict. Opaque payloads: join / rejoin frames held as *DataPayload over a window of a receive buffer with spare capacity and sentinels (buffer unchanged, same verdict twice, MIC = typed-frame MIC), ciphertext windows through DecryptJoinAcceptPayload. After every Validate* call the frame must print and marshal as before. Every MIC call is also repeated from 8 goroutines at once. History: unrelated library calls (internal/noise) before every compared call; fail-then-valid families run back to back (a failing Set/Validate/Encrypt call - rejoin payload with the wrong RejoinType, JoinNonce >= 2^24, nil payload - immediately followed by a valid uplink join MIC, join-accept MIC and encryption, and the first valid call again), each compared with model and specification; every MIC call is repeated three times later in the process (reverse, same, shuffled order) and must give its first result. Distinct by construction (random keys) except the repeated calls.")
+		"RFC 4493 examples and the FIPS-197 C.1 decryption first; corpus: join-accept with channel-mask CFList [m0; 0] (C04-1). Join-request and rejoin-request types 0, 1, 2 (palindromic EUIs in 25%), carried MIC valid / random / bit-flipped; join-accept frames with OptNeg both ways, CFList absent / 5 channels / 1..6 masks, JoinNonce 0 and 2^24-1 boundaries, all four JoinReqType values cycled, palindromic and non-palindromic JoinEUI, DevNonce boundaries; EncryptJoinAcceptPayload (device-side aes.Encrypt check in Go and in Coq), Decrypt with the same and with another key, malformed inputs (wrong payload types, lengths not 16/32, JoinNonce >= 2^24). Special MIC values: rejoin-requests type 0/2 CONSTRUCTED (internal/micforge: the single padded CMAC block solved from the tag, ~2^21 trials for pad byte, MHDR and RejoinType) so that their correct MIC is 00000000, ffffffff, 00000001 or the MIC of the previous case; join-accepts carrying these four MIC values through Encrypt / Decrypt (round trip) and Set/Validate. MHDR Major drawn from 0..3 in every generated frame. Octets as received (CWireUp / CWireAccept): join / rejoin requests serialised and join-accepts BUILT per specification (own CMAC + crypto/aes; 12- and 28-octet forms, channel list with CFListType 0/2/0x7f, channel masks), then run through UnmarshalBinary [+ DecryptJoinAcceptPayload] + Validate*JoinMIC: as sent, other key, a field changed after the MIC, a single-bit flip, MHDR RFU bits 04/08/10/1c (known C04-2), RxDelay bits 7..4 and channel-mask CFList octets 12..14 set by the sender (known C04-3); verdict and decrypted payload are compared with the specification computed in Coq from the raw octets. Related formulas: join frames carrying a MIC that is correct under a related formula (own CMAC: 1.0 form and 1.1 form whatever OptNeg says, other key, other JoinReqType, JoinEUI reversed, DevNonce + 1 / byte-swapped, without MHDR, MHDR first; for requests: prefixed, without MHDR, MHDR twice, other key) - and the right MIC validated under a different key that agrees with the right key under CRC-32 x3 / Adler-32 / xor-folds / shared prefix or suffix (internal/collide), then under the right key again - the model decides each verdict. Opaque payloads: join / rejoin frames held as *DataPayload over a window of a receive buffer with spare capacity and sentinels (buffer unchanged, same verdict twice, MIC = typed-frame MIC), ciphertext windows through DecryptJoinAcceptPayload. After every Validate* call the frame must print and marshal as before. Every MIC call is also repeated from 8 goroutines at once. History: unrelated library calls (internal/noise) before every compared call; fail-then-valid families run back to back (a failing Set/Validate/Encrypt call - rejoin payload with the wrong RejoinType, JoinNonce >= 2^24, nil payload - immediately followed by a valid uplink join MIC, join-accept MIC and encryption, and the first valid call again), each compared with model and specification; every MIC call is repeated three times later in the process (reverse, same, shuffled order) and must give its first result. Distinct by construction (random keys) except the repeated calls.")
 	s.ShardSize = 150
 	n := 400
 	if thorough {
@@ -703,6 +877,9 @@ func main() {
 		}
 		if i%8 == 5 {
 			opaqueJoin(s, r, i/8)
+		}
+		if i%8 == 3 {
+			wireCases(s, r, i/8)
 		}
 		if i%5 == 0 { // malformed
 			m := joinFrame(r, r.Intn(5))
